@@ -102,6 +102,9 @@ func alertDumps(rt *gtfs.Realtime) (ids []string, byID map[string]string) {
 
 func runC07(c *core.Ctx) {
 	r := c.R
+	if c.Index%61 == 17 {
+		skipInterplay(c, "C07")
+	}
 	sc := rtSizeCases(c.Tier)
 	if c.Index >= len(sc) && c.Index%4 == 3 {
 		c07Conflicting(c)
